@@ -2,11 +2,8 @@ import AasVerif.Lemmas.JsonSchemaGenerate
 import AasVerif.Lemmas.JsonSchemaLeaf
 import AasVerif.Lemmas.JsonSchemaLookup
 import AasVerif.Lemmas.JsonSchemaChoice
-<<<<<<< HEAD
 import AasVerif.Lemmas.JsonSchemaSearchB
-=======
 import AasVerif.Lemmas.JsonSchemaDispatch
->>>>>>> 3b801aa4d6d8f2c3db6a941074c9d9dbc6e76170
 /-!
 # C11 — JSON Schema is valid and never rejects valid data
 
@@ -16,12 +13,6 @@ concrete class) and `JsonSchema.validates` (the validation semantics of the emit
 The inferred constraints are an INPUT of the model (C15's subject).  Statements that mention
 patterns are statements about the executable matcher `searchB` on UTF-16 units.
 
-<<<<<<< HEAD
-Planned, not proved (see `design.d/C11.md`): `valid_data_accepted` for whole documents through the
-`allOf`/`$ref` inheritance chain and the SDK's `to_jsonable` (needs the definition look-up lemma for
-`generate` and a data model); exactness of `oneOf` (`choice_exclusive` is proved in its
-"at most one alternative" form).  `searchB ↔ Retree.MUnion` is proved: see the last section.
-=======
 Whole documents (section "Whole documents through the `allOf`/`$ref` chain" below): for every concrete
 class of a meta-model whose hierarchy is consistent (`hierOK`, decidable, evaluated by the driver on
 every input) `{"$ref": "#/definitions/<Class>"}` accepts EXACTLY the well-formed documents (`DocOK`:
@@ -31,9 +22,8 @@ half; `choice_dispatch` is the same for `_choice` definitions.
 
 Planned, not proved (see `design.d/C11.md`): the link from the SDK's `to_jsonable` to `DocOK` (needs a
 data model; member values that are themselves class instances are delegated to `Valid` of the
-referenced definition, to which `generated_schema_document_iff` / `choice_dispatch` apply again);
-`searchB ↔ Retree.MUnion`.
->>>>>>> 3b801aa4d6d8f2c3db6a941074c9d9dbc6e76170
+referenced definition, to which `generated_schema_document_iff` / `choice_dispatch` apply again).
+`searchB ↔ Retree.MUnion` is proved: see the section "The regex matcher is the semantics".
 -/
 namespace AasVerif.Props.C11
 open AasVerif AasVerif.JsonSchema AasVerif.Retree
@@ -250,7 +240,6 @@ theorem choice_exact (defs : Defs) (alts : List Text) (hnd : alts.Nodup)
     Valid defs (.mk [.oneOf (alts.map refTo)]) (.obj kvs) ↔ Valid defs (refTo X) (.obj kvs) :=
   JsonSchema.choice_exact defs alts hnd hdefs hX hmt
 
-<<<<<<< HEAD
 /-! ## The regex matcher is the semantics
 
 `searchB` is what `validates` runs for the `pattern` keyword and what the driver answers on every
@@ -316,7 +305,7 @@ example : Search (.mk [.mk [.mk (.sym .start) none, .mk (.char ⟨97, false⟩) 
   · rw [← searchB_yes_iff]; decide
   · rw [← searchB_no_iff]; decide
   · rw [← searchB_yes_iff]; decide
-=======
+
 /-! ## Whole documents through the `allOf`/`$ref` chain -/
 
 /-- **One level, inheritable definition, exactly**: the definition of an abstract class — or the
@@ -467,6 +456,5 @@ example :
       .obj [(ascii "name", .str (ascii "abc")), (modelTypeKey, .str (ascii "Leaf"))],
       .obj [(ascii "name", .str (ascii "a")), (modelTypeKey, .str (ascii "Mid"))]])]) = some true := by
   refine ⟨by decide, by decide, by decide⟩
->>>>>>> 3b801aa4d6d8f2c3db6a941074c9d9dbc6e76170
 
 end AasVerif.Props.C11
